@@ -107,7 +107,7 @@ type world struct {
 	height int64
 	conc   *conc
 	peers  []peer.ID
-	wg     sync.WaitGroup
+	rig    *rig
 }
 
 type reqSeen struct {
@@ -184,6 +184,9 @@ func newWorld(seed int64, bid string, opts map[string]string) (*world, error) {
 }
 
 func (w *world) close() {
+	if w.rig != nil {
+		w.rig.att.Close()
+	}
 	w.h.Release()
 	w.cancel()
 	w.host.Close()
